@@ -77,6 +77,17 @@ def run(tier):
                          case={"cmd": v["cmd"], "viol": {k: v[k] for k in v if k not in ("spec", "tables", "cmd")}},
                          files={"s.l": v["spec"], "s_tables.h": v["tables"]})
         ck.sample({"job": job["tag"], "eof_rules": str(job["groups"][0].label), "executions": sm["executions"], "eof_actions": sm["eof_actions"]})
+    # C++ scanners with the stock LexerInput() over std::istream: every sequence of <= 3 (thorough 4) re-supply operations after end of input
+    from .. import cxxstream
+    cxx_cases = 0
+    for j, res in pmap(cxxstream.run_variant, [(v, ["histories", "3" if tier == "quick" else "4"]) for v in cxxstream.VARIANTS], check=ck):
+        if "worker_exception" in res:
+            ck.broken.append("C++ stream worker failed: %s" % res["worker_exception"])
+            continue
+        cxx_cases += cxxstream.judge(ck, res, "C10:cxx-stream")
+    tot["executions"] += cxx_cases
+    ck.cov["cxx_stream_histories"] = cxx_cases
+    ck.guard(cxx_cases > 500, "C++ stream histories hardly exercised: %d" % cxx_cases)
     ck.cov.update(states=tot["choice_points"], transitions=tot["tokens"] + tot["yywraps"] + tot["eof_actions"],
                   traces_validated_against_impl=tot["executions"], evaluations=tot["executions"], distinct_nontrivial=tot["nontrivial"],
                   eof_assignments=len(asg), yywrap_calls=tot["yywraps"], eof_actions_run=tot["eof_actions"], restarts=calls[11], new_yyin=calls[12],
@@ -84,8 +95,10 @@ def run(tier):
                        "unqualified rule after them) x every history within the deviation bound of: yywrap answers (stop / new yyin / switch to a "
                        "new buffer), <<EOF>> action endings (terminate / pop / new yyin / return), yyrestart and new-yyin calls after "
                        "termination, over six scripted sources (empty, one token, ending inside a token that needs look-ahead); whole, 1- and "
-                       "2-byte reads")
-    ck.assumptions += ["calling yylex() again after termination without a new source is undefined in the manual and not generated",
+                       "2-byte reads; C++: after end of input on a std::istream, every sequence of yyrestart / switch_streams with the same "
+                       "(re-armed) stream or a new one, by pointer and by reference, and yylex() again, x chunk sizes x 4 scanner variants")
+    ck.assumptions += ["calling yylex() again after termination without a new source is undefined in the manual and not generated for C scanners; for C++ "
+                       "streams it is (the stream simply stays at end of file: the EOF action runs again, no token)",
                        "an unqualified <<EOF>> rule is placed after the qualified ones (the manual's 'do not already have' is order dependent)",
                        "giving an in-memory buffer a new yyin / yyrestart is not described by the manual and not generated"]
     ck.guard(tot["executions"] > 20000, "too few executions: %d" % tot["executions"])
